@@ -187,7 +187,7 @@ class MetadorMeta:
         obj_node = self._mc.__wrapped__[obj_path]
         assert isinstance(obj_node, H5DatasetLike)
         stored_obj = StoredMetadata(uuid=obj_uuid, schema=schema_ref, node=obj_node)
-        self._objs[schema_ref] = stored_obj
+        self._objs[schema_ref.name] = stored_obj
         # update TOC
         self._mc.metador._links.register(stored_obj)
         return
